@@ -60,12 +60,17 @@ def grid_oracle(case):
     if should_reject:
         fail("C10/constructor-accepts-invalid", "ThreadPool(%r, %r, %r) was accepted" % (mx, mn, qs))
     want_min = min(max(imn, 0), imx)
-    if pool._max_threads != imx or pool._min_threads != want_min:
-        fail("C10/constructor-clamping", "ThreadPool(%r, %r) has max=%r min=%r, expected %d/%d" % (mx, mn, pool._max_threads, pool._min_threads, imx, want_min))
+    # the bounds as the library's own tests read them back (skipped when a pool keeps them elsewhere) ...
+    got_max, got_min = getattr(pool, "_max_threads", None), getattr(pool, "_min_threads", None)
+    if (got_max is not None and got_max != imx) or (got_min is not None and got_min != want_min):
+        fail("C10/constructor-clamping", "ThreadPool(%r, %r) has max=%r min=%r, expected %d/%d" % (mx, mn, got_max, got_min, imx, want_min))
+    # ... and as they show: start() brings up min_threads workers (threads that did not exist before)
     if imx <= 10:
+        import threading
+        before = set(threading.enumerate())
         pool.start()
         try:
-            alive = len([t for t in pool._threads if t.is_alive()])
+            alive = len([t for t in threading.enumerate() if t not in before and t.is_alive()])
             if alive != want_min:
                 fail("C10/constructor-workers", "ThreadPool(%r, %r) runs %d workers after start(), expected min_threads=%d" % (mx, mn, alive, want_min))
         finally:
